@@ -104,16 +104,55 @@ class ScriptedTransport(Transport):
         return out
 
 
-def schema_for(version: str) -> MessageSchema:
+def schema_for(version: str, *, via_context: bool = False) -> MessageSchema:
+    """A decoder for one protocol version, configured through set_protocol() or - the plain marshmallow way the field
+    classes read it - through the schema context."""
+    if via_context:
+        return MessageSchema(context={"protocol": get_protocol(version)})
     schema = MessageSchema()
     schema.set_protocol(get_protocol(version))
     return schema
+
+
+CONFIG_EXTRA: dict[str, Any] = {}  # non-default values for Config options the harness does not know (see unknown_options)
+
+
+def unknown_options() -> list[dict]:
+    """Non-default settings of every Config option this harness does not know (an option added since the properties were
+    written): 'every gateway state' includes how the gateway was configured.  Empty on the unchanged tree."""
+    import dataclasses
+
+    known = {"metric", "persistence_file"}
+    settings: list[dict] = []
+    try:
+        fields = dataclasses.fields(Config)
+    except TypeError:
+        return settings
+    for field in fields:
+        if field.name in known:
+            continue
+        default = field.default if field.default is not dataclasses.MISSING else None
+        if isinstance(default, bool):
+            settings.append({field.name: not default})
+        elif isinstance(default, int):
+            settings += [{field.name: value} for value in (0, 1, default * 2 + 1) if value != default]
+        elif isinstance(default, float):
+            settings += [{field.name: value} for value in (0.0, default / 2, default * 10) if value != default]
+        elif isinstance(default, str):
+            settings += [{field.name: value} for value in ("", default + "x")]
+        elif default is None and field.type in ("bool | None", "bool"):
+            settings += [{field.name: True}, {field.name: False}]
+        elif default is None and str(field.type).startswith(("int", "float")):
+            settings += [{field.name: value} for value in (0, 1, 5, 1000)]
+    return settings
 
 
 def new_gateway(version: str | None = None, *, metric: bool = True,
                 persistence_file: str | None = None) -> tuple[Gateway, ScriptedTransport]:
     transport = ScriptedTransport()
     gateway = Gateway(transport, Config(metric=metric, persistence_file=persistence_file))
+    for name, value in CONFIG_EXTRA.items():
+        setattr(gateway.config, name, value)
     if version is not None:
         gateway.protocol_version = version
     return gateway, transport
